@@ -407,6 +407,8 @@ struct SymbolTableBase {
     declarations: HashMap<String, Declaration>,
     namespaces: HashMap<String, Rc<Namespace>>,
     enclosing: Option<Rc<RefCell<SymbolTableBase>>>,
+    // this scope is the outermost scope of a lambda: names found beyond it are captures
+    is_lambda_boundary: bool,
 }
 
 impl SymbolTableBase {
@@ -417,6 +419,24 @@ impl SymbolTableBase {
                 Some(enclosing) => enclosing.borrow().lookup_declaration(id),
                 None => None,
             },
+        }
+    }
+
+    // does looking up `id` from here leave the enclosing lambda (i.e. is it a captured name)?
+    fn is_captured_by_lambda(&self, id: &str) -> bool {
+        if self.declarations.contains_key(id) {
+            return false;
+        }
+        match &self.enclosing {
+            Some(enclosing) => {
+                let enclosing = enclosing.borrow();
+                if self.is_lambda_boundary {
+                    enclosing.lookup_declaration(id).is_some()
+                } else {
+                    enclosing.is_captured_by_lambda(id)
+                }
+            }
+            None => false,
         }
     }
 
@@ -464,6 +484,16 @@ impl SymbolTable {
                 ..Default::default()
             })),
         }
+    }
+
+    pub(crate) fn new_lambda_scope(&self) -> Self {
+        let scope = self.new_scope();
+        scope.base.borrow_mut().is_lambda_boundary = true;
+        scope
+    }
+
+    pub(crate) fn is_captured_by_lambda(&self, id: &str) -> bool {
+        self.base.borrow().is_captured_by_lambda(id)
     }
 
     pub(crate) fn lookup_declaration(&self, id: &str) -> Option<Declaration> {
@@ -944,6 +974,20 @@ fn resolve_names_stmt(ctx: &mut StaticsContext, symbol_table: &SymbolTable, stmt
         StmtKind::Assign(lhs, _, rhs) => {
             resolve_names_expr(ctx, symbol_table, lhs);
             resolve_names_expr(ctx, symbol_table, rhs);
+            // a lambda works on copies of the variables it captures: assigning to one
+            // would silently have no effect outside the lambda
+            if let ExprKind::Variable(name) = &*lhs.kind
+                && symbol_table.is_captured_by_lambda(name)
+                && matches!(
+                    symbol_table.lookup_declaration(name),
+                    Some(Declaration::Var(_))
+                )
+            {
+                ctx.errors.push(Error::GenericWithNode {
+                    msg: "Can't assign to a variable captured by a lambda".to_string(),
+                    node: lhs.node(),
+                });
+            }
         }
         StmtKind::Continue | StmtKind::Break => {}
         StmtKind::Return(expr) => {
@@ -1037,7 +1081,7 @@ fn resolve_names_expr(ctx: &mut StaticsContext, symbol_table: &SymbolTable, expr
             }
         }
         ExprKind::AnonymousFunction(args, out_ty, body) => {
-            let symbol_table = symbol_table.new_scope();
+            let symbol_table = symbol_table.new_lambda_scope();
             resolve_names_func_helper(ctx, &symbol_table, args, body, out_ty);
         }
         ExprKind::Tuple(exprs) => {
